@@ -25,10 +25,14 @@ Definition lower_sum (a b : xq) : xq := let v := xq_add a b in if xq_is_nan v th
 Definition upper_sum (a b : xq) : xq := let v := xq_add a b in if xq_is_nan v then PInf else v.
 
 (* bounds.rs:39-49 *)
-Definition b_intersection (tol : xq) (a b : bounds) : option bounds :=
+(* `ties`: how an exact tie lower = upper is resolved.  In f64 two mathematically equal bounds computed along
+   different paths differ by rounding noise in either direction, so the implementation may take the first branch
+   (false, the exact reading) or fall into the tolerance branch and keep the current box (true).  Both are sound;
+   the correspondence check accepts either resolution (Tie/TieC07.v). *)
+Definition b_intersection (ties : bool) (tol : xq) (a b : bounds) : option bounds :=
   let lower := xq_max (lo a) (lo b) in
   let upper := xq_min (hi a) (hi b) in
-  if xq_leb lower upper then Some (mkB lower upper)
+  if (if ties then xq_ltb lower upper else xq_leb lower upper) then Some (mkB lower upper)
   else if xq_leb (xq_sub lower upper) tol then Some a
   else None.
 
@@ -132,7 +136,8 @@ Definition af_from_constraint (c : constr) : option aform :=
 Record astate := mkA {
   a_vb : list (string * bounds);
   a_limit : bool;
-  a_infeasible : bool }.
+  a_infeasible : bool;
+  a_ties : bool }.
 
 (* the tolerance is a field of the Rust struct, but every construction site sets DEFAULT_TOLERANCE *)
 Definition default_tolerance : xq := Fin (1 # 1000000000)%Q.
@@ -142,9 +147,9 @@ Definition default_max_steps : nat := Z.to_nat 10000%Z.
 Definition a_get (a : astate) (n : string) : bounds :=
   match al_get (a_vb a) n with Some b => b | None => b_unbounded end.
 Definition a_set_vb (a : astate) (vb : list (string * bounds)) : astate :=
-  mkA vb (a_limit a) (a_infeasible a).
-Definition a_mark_infeasible (a : astate) : astate := mkA (a_vb a) (a_limit a) true.
-Definition a_mark_limit (a : astate) : astate := mkA (a_vb a) true (a_infeasible a).
+  mkA vb (a_limit a) (a_infeasible a) (a_ties a).
+Definition a_mark_infeasible (a : astate) : astate := mkA (a_vb a) (a_limit a) true (a_ties a).
+Definition a_mark_limit (a : astate) : astate := mkA (a_vb a) true (a_infeasible a) (a_ties a).
 Definition a_insert_variable (a : astate) (n : string) (t : vtype) : astate :=
   a_set_vb a (al_insert (a_vb a) n (b_of_vtype t)).
 
@@ -191,7 +196,7 @@ Definition required_bounds (c : cmp) : bounds :=
 (* bounds.rs:630-646 ; returns (state, changed) *)
 Definition tighten_variable (a : astate) (n : string) (cand : bounds) : astate * bool :=
   let cur := a_get a n in
-  match b_intersection (a_tol a) cur cand with
+  match b_intersection (a_ties a) (a_tol a) cur cand with
   | None => (a_mark_infeasible a, false)
   | Some t =>
       let changed := xq_gtb (lo t) (xq_add (lo cur) (a_tol a)) || xq_ltb (hi t) (xq_sub (hi cur) (a_tol a)) in
@@ -230,7 +235,7 @@ Definition tighten_affine_form (a : astate) (f : aform) (c : cmp) : astate * lis
     end in
   let (a1, changed) := go O (af_coeffs f) a [] in
   let current := last prefixes b_unbounded in
-  let a2 := match b_intersection (a_tol a1) current required with
+  let a2 := match b_intersection (a_ties a1) (a_tol a1) current required with
             | None => a_mark_infeasible a1
             | Some _ => a1 end in
   (a2, changed).
@@ -240,7 +245,7 @@ Fixpoint tighten_expression (e : exp) (required : bounds) (st : astate * list st
   : astate * list string :=
   let (a, changed) := st in
   if a_infeasible a then st else
-  match b_intersection (a_tol a) (bounds_of a e) required with
+  match b_intersection (a_ties a) (a_tol a) (bounds_of a e) required with
   | None => (a_mark_infeasible a, changed)
   | Some required =>
     let fix each (l : list exp) (r : bounds) (st : astate * list string) : astate * list string :=
@@ -287,7 +292,7 @@ Definition tighten_constraint_expression (a : astate) (c : constr) (required : b
   let lb := bounds_of a (c_lhs c) in
   let rb := bounds_of a (c_rhs c) in
   let current := b_sub lb rb in
-  match b_intersection (a_tol a) current required with
+  match b_intersection (a_ties a) (a_tol a) current required with
   | None => (a_mark_infeasible a, [])
   | Some required =>
       tighten_expression (c_rhs c) (b_sub lb required)
@@ -356,15 +361,17 @@ Fixpoint propagate_loop (fuel : nat) (cs : list constr) (forms : list (option af
     end
   end.
 
-Definition from_domain (dom : list (string * vtype)) : astate :=
-  mkA (map (fun p => (fst p, b_of_vtype (snd p))) dom) false false.
+Definition from_domain_t (ties : bool) (dom : list (string * vtype)) : astate :=
+  mkA (map (fun p => (fst p, b_of_vtype (snd p))) dom) false false ties.
+Definition from_domain := from_domain_t false.
 
-Definition analyze_with (dom : list (string * vtype)) (cs : list constr) (max_steps : nat) : astate :=
-  let a := from_domain dom in
+Definition analyze_with_t (ties : bool) (dom : list (string * vtype)) (cs : list constr) (max_steps : nat) : astate :=
+  let a := from_domain_t ties dom in
   let forms := map af_from_constraint cs in
   let names := map (fun p => constraint_names (fst p) (snd p)) (combine cs forms) in
   let n := List.length cs in
   propagate_loop (S (S max_steps)) cs forms names max_steps O (seq O n) (repeat true n) a.
+Definition analyze_with := analyze_with_t false.
 
 Definition analyze (dom : list (string * vtype)) (cs : list constr) : astate :=
   analyze_with dom cs default_max_steps.
